@@ -470,6 +470,7 @@ class Set(ProxyValue):
 
     type = set
     type_name = "builtins.set"
+    hash_tag = "Value.set"
 
     def get_hash(self, data: Optional[bytes] = None) -> str:
         # Sort the set to ensure stable serialization and hashing.
@@ -482,7 +483,17 @@ class Set(ProxyValue):
         bytes = pickle_dumps(items)
 
         # Use a unique tag to distinguish from hashing a list.
-        return hash_tag_bytes("Value.set", bytes)
+        return hash_tag_bytes(self.hash_tag, bytes)
+
+
+class FrozenSet(Set):
+    """
+    Augment builtins.frozenset to support stable hashing.
+    """
+
+    type = frozenset
+    type_name = "builtins.frozenset"
+    hash_tag = "Value.frozenset"
 
 
 class EnumType(ProxyValue):
